@@ -35,6 +35,9 @@ type Frame struct {
 	callIdx   map[string]int
 	name      string
 	private   map[*ssa.Alloc]bool
+	curBlock  *ssa.BasicBlock
+	curIdx    int
+	escSites  map[*ssa.Alloc][]ssa.Instruction
 }
 
 type loopInfo struct {
@@ -273,7 +276,8 @@ func (e *Enc) runFunction(fr *Frame, entry pathState) (pathState, []Val, bool) {
 				}
 			}
 		}
-		for _, ins := range b.Instrs {
+		for insIdx, ins := range b.Instrs {
+			fr.curBlock, fr.curIdx = b, insIdx
 			if _, ok := ins.(*ssa.Phi); ok {
 				continue
 			}
@@ -397,6 +401,9 @@ func (e *Enc) enterLoop(fr *Frame, li *loopInfo, ins []edgeIn) pathState {
 	st := entrySt.clone()
 	ms := e.loopMods(fr, li)
 	e.havocMods(fr, st, ms, true)
+	// captured locals that no callee can reach and that the loop body itself does not store to
+	// keep their value
+	e.restoreLoopPrivateCells(fr, li, entrySt, st)
 	reach := e.fresh(fmt.Sprintf("R_f%d_loop%d_head", fr.id, li.ord))
 	e.define(reach, "Bool", m.reach)
 	// alloc only grows
@@ -1369,6 +1376,8 @@ func (e *Enc) execConvert(fr *Frame, x *ssa.Convert, cur *pathState) {
 		c := e.sliceComp(el)
 		r := e.newObject(cur, "arr")
 		e.ufun("bytes_of_str", []string{"Str"}, "(Array Int Int)")
+		e.ufun("str_of_bytes", []string{"(Array Int Int)", "Int", "Int"}, "Str")
+		e.hdrOnce("bytes_str_roundtrip", "(assert (forall ((s Str)) (! (= (str_of_bytes (bytes_of_str s) 0 (strlen s)) s) :pattern ((bytes_of_str s)))))")
 		e.set(cur.st, c, store(e.get(cur.st, c), r, "(bytes_of_str "+v.T+")"))
 		e.setReg(fr, x, Val{T: fmt.Sprintf("(mkslice %s 0 (strlen %s) (strlen %s))", r, v.T, v.T), S: "Slice"})
 	case from == "Int" && to == "Str":
@@ -1731,15 +1740,7 @@ func (e *Enc) restorePrivateCells(fr *Frame, st *St, oldSyms map[string]string) 
 			if r.Loc == nil || r.Loc.Kind != "cell" || oldSyms[r.Loc.Comp] == "" {
 				continue
 			}
-			if f.private == nil {
-				f.private = map[*ssa.Alloc]bool{}
-			}
-			p, seen := f.private[a]
-			if !seen {
-				p = privateCell(a)
-				f.private[a] = p
-			}
-			if !p {
+			if f.escapedBefore(a, f.curBlock, f.curIdx) {
 				continue
 			}
 			c := e.comps[r.Loc.Comp]
@@ -1802,4 +1803,189 @@ func (e *Enc) directCallFams(fn *ssa.Function, blocks []*ssa.BasicBlock, ms *Mod
 			}
 		}
 	}
+}
+
+func (e *Enc) restoreLoopPrivateCells(fr *Frame, li *loopInfo, entrySt, st *St) {
+	written := map[*ssa.Alloc]bool{}
+	var scan func(fn *ssa.Function, blocks []*ssa.BasicBlock, depth int)
+	seen := map[*ssa.Function]bool{}
+	scan = func(fn *ssa.Function, blocks []*ssa.BasicBlock, depth int) {
+		for _, b := range blocks {
+			for _, ins := range b.Instrs {
+				switch x := ins.(type) {
+				case *ssa.Store:
+					if a, ok := x.Addr.(*ssa.Alloc); ok {
+						written[a] = true
+					}
+					if u, ok := x.Addr.(*ssa.FreeVar); ok {
+						// store through a captured variable inside an expanded closure: find the alloc
+						for f := fr; f != nil; f = f.caller {
+							for v := range f.regs {
+								if a, ok := v.(*ssa.Alloc); ok && a.Comment == u.Name() {
+									written[a] = true
+								}
+							}
+						}
+					}
+				case *ssa.MakeClosure:
+					if cf, ok := x.Fn.(*ssa.Function); ok && !seen[cf] && depth < 4 {
+						seen[cf] = true
+						scan(cf, cf.Blocks, depth+1)
+					}
+				}
+			}
+		}
+	}
+	var blocks []*ssa.BasicBlock
+	for b := range li.blocks {
+		blocks = append(blocks, b)
+	}
+	scan(fr.fn, blocks, 0)
+	for f := fr; f != nil; f = f.caller {
+		var allocs []*ssa.Alloc
+		for v := range f.regs {
+			if a, ok := v.(*ssa.Alloc); ok && a.Heap && !written[a] {
+				allocs = append(allocs, a)
+			}
+		}
+		sort.Slice(allocs, func(i, j int) bool { return allocs[i].Name() < allocs[j].Name() })
+		for _, a := range allocs {
+			r := f.regs[a]
+			if r.Loc == nil || r.Loc.Kind != "cell" {
+				continue
+			}
+			c := e.comps[r.Loc.Comp]
+			if e.get(entrySt, c) == e.get(st, c) {
+				continue
+			}
+			blk, idx := li.head, 0
+			if f != fr {
+				blk, idx = f.curBlock, f.curIdx
+			}
+			if f.escapedBefore(a, blk, idx) || (f == fr && f.escapesInLoop(a, li)) {
+				continue
+			}
+			e.set(st, c, store(e.get(st, c), r.Loc.Base, sel(e.get(entrySt, c), r.Loc.Base)))
+		}
+	}
+}
+
+// escapeSites: instructions through which the address of a heap-allocated local leaves the
+// function's direct control (stored somewhere, passed to a call, captured by a closure that
+// itself escapes).
+func (f *Frame) escapeSitesOf(a *ssa.Alloc) []ssa.Instruction {
+	if f.escSites == nil {
+		f.escSites = map[*ssa.Alloc][]ssa.Instruction{}
+	}
+	if s, ok := f.escSites[a]; ok {
+		return s
+	}
+	var sites []ssa.Instruction
+	refs := a.Referrers()
+	if refs != nil {
+		for _, r := range *refs {
+			switch x := r.(type) {
+			case *ssa.Store:
+				if x.Val == ssa.Value(a) {
+					sites = append(sites, x)
+				}
+			case *ssa.UnOp, *ssa.DebugRef:
+			case *ssa.MakeClosure:
+				escapes := false
+				crefs := x.Referrers()
+				if crefs == nil {
+					escapes = true
+				} else {
+					for _, cr := range *crefs {
+						switch y := cr.(type) {
+						case *ssa.Go:
+							if y.Call.Value != ssa.Value(x) {
+								escapes = true
+							}
+						case *ssa.Call:
+							if y.Call.Value != ssa.Value(x) {
+								escapes = true
+							}
+						case *ssa.Defer:
+							if y.Call.Value != ssa.Value(x) {
+								escapes = true
+							}
+						case *ssa.Store:
+							la, ok := y.Addr.(*ssa.Alloc)
+							if !ok || la.Heap || !localOnlyCalled(la) {
+								escapes = true
+							}
+						case *ssa.DebugRef:
+						default:
+							escapes = true
+						}
+					}
+				}
+				if escapes {
+					sites = append(sites, x)
+				}
+			default:
+				if ins, ok := r.(ssa.Instruction); ok {
+					sites = append(sites, ins)
+				}
+			}
+		}
+	}
+	f.escSites[a] = sites
+	return sites
+}
+
+func blockReaches(from, to *ssa.BasicBlock) bool {
+	seen := map[*ssa.BasicBlock]bool{}
+	stack := []*ssa.BasicBlock{}
+	for _, s := range from.Succs {
+		stack = append(stack, s)
+	}
+	for len(stack) > 0 {
+		b := stack[len(stack)-1]
+		stack = stack[:len(stack)-1]
+		if b == to {
+			return true
+		}
+		if seen[b] {
+			continue
+		}
+		seen[b] = true
+		stack = append(stack, b.Succs...)
+	}
+	return false
+}
+
+// escapedBefore: some escape site of a may have executed before instruction idx of block blk.
+func (f *Frame) escapedBefore(a *ssa.Alloc, blk *ssa.BasicBlock, idx int) bool {
+	if blk == nil {
+		return true
+	}
+	for _, s := range f.escapeSitesOf(a) {
+		sb := s.Block()
+		if sb == blk {
+			for i, ins := range sb.Instrs {
+				if ins == s && i < idx {
+					return true
+				}
+			}
+			if blockReaches(sb, blk) { // through a cycle
+				return true
+			}
+			continue
+		}
+		if blockReaches(sb, blk) {
+			return true
+		}
+	}
+	return false
+}
+
+func (f *Frame) escapesInLoop(a *ssa.Alloc, li *loopInfo) bool {
+	for _, s := range f.escapeSitesOf(a) {
+		if li.blocks[s.Block()] {
+			return true
+		}
+	}
+	return false
 }
